@@ -13,6 +13,7 @@
 
 std::string g_focus;
 bool g_fips_build = false;
+bool g_force_family_api = false;
 
 static double now_s()
 {
@@ -100,6 +101,17 @@ static std::vector<CheckDef> g_checks = {
           "beyond len, caller-saved/vector/mask registers, flags, 64 KiB dead stack) and identical schedule/transport/fault streams and "
           "addresses; the two observable histories must be identical; distinct_nontrivial: distinct workload states (as C08)",
           { "object internals, bytes beyond len and register contents after return are deliberately not compared" } },
+        { "C18", "exploration", { { "shared", 1 } }, 20000, 2000000, 50, 900, false, false,
+          "cases: (a) frozen statics - the library's writable static storage (all .data/.bss/COMMON of the archive, linked into one "
+          "page-aligned section) is write-protected, before or after binding, while hash-manager / streaming / one-shot workloads run; only "
+          "stores into <entry>_dispatched slots (and self_test_status) are admitted and logged; (b) first-call races - 2-6 coroutine tasks make "
+          "simultaneous first calls of the same or different dispatched entry points, interleaved at the simulated cpuid/xgetbv points; "
+          "(c) two tasks with separate environments and objects run workload plans interleaved at call granularity and must reproduce their "
+          "solo histories; distinct_nontrivial: distinct (mode, workload, binding order) cells for (a)/(c) and distinct (slot states, per-task "
+          "program point) states for (b)",
+          { "true parallel preemption inside a kernel is not simulated: the argument is that code which never writes static storage has nothing "
+            "but caller-owned objects, its own stack and constants to interfere through",
+            "std (non-FIPS) build: the self-test verdict is exercised by C17" } },
         { "C15", "exploration", { { "hashlong", 1 } }, 30, 56, 120, 3000, false, false,
           "cases: long-stream workload on every (algorithm, family) pair in turn (run i uses pair i mod 28): up to 4 long clients stream the same "
           "periodic 2 MiB pattern through a 4 GiB aliased window under seeded segmentations (segments up to 2^32-1 bytes, bursts of small "
@@ -182,6 +194,8 @@ struct Exec {
         RunResult r;
         bool tainted = false;
 };
+
+Sim *get_sim_by_name(const std::string &n) { return get_sim(n); }
 
 static Env *g_env = nullptr;
 static Env &env()
